@@ -133,7 +133,43 @@ def check_tree(t):
     return None, str(pt)
 
 
+def check_family(fam):
+    """soundness on incomplete evidence: any family of observed sets must
+    be admitted by the inferred tree"""
+    import tel2puml.events as ev
+    from tel2puml.logic_detection import calculate_logic_gates
+    obs = {frozenset(x) for x in fam}
+    try:
+        pt = calculate_logic_gates({ev.EventSet(sorted(s)) for s in obs})
+        adm = pt_outcomes(pt)
+    except BadTree as e:
+        return ["bad_tree", str(e)], None
+    except Exception as e:
+        return ["exception", type(e).__name__, str(e)[:160]], None
+    if not obs <= adm:
+        return ["unsound", str(pt),
+                [sorted(s) for s in sorted(obs - adm, key=sorted)][:3]], str(pt)
+    return None, str(pt)
+
+
+def sub_families(t, all_below, loo_below):
+    obs = sorted(outcomes(t), key=sorted)
+    m = len(obs)
+    if m <= all_below:
+        return [list(c) for r in range(1, m)
+                for c in itertools.combinations(obs, r)]
+    if m <= loo_below:
+        return [[o for o in obs if o is not x] for x in obs]
+    return []
+
+
 def handle(task):
+    if task.get("families"):
+        out = []
+        for fam in task["families"]:
+            prob, pt = check_family(fam)
+            out.append({"family": fam, "problem": prob, "pt": pt})
+        return {"sub": out, "seed": task["seed"]}
     out = []
     for t in task["trees"]:
         t = to_t(t)
@@ -166,6 +202,21 @@ def build(tier, ctx):
     for seed in seeds:
         for i in range(0, len(labelled), chunk):
             tasks.append({"seed": seed, "trees": labelled[i:i + chunk]})
+    # incomplete evidence (first sentence of the property): every proper
+    # non-empty sub-family of the outcome family of a tree, soundness only
+    all_below, loo_below = (7, 16) if tier == "quick" else (8, 32)
+    fams = {}
+    for names in (fwd, rev):
+        for s in shapes:
+            for fam in sub_families(label(s, names), all_below, loo_below):
+                key = frozenset(fam)
+                if key not in fams:
+                    fams[key] = [sorted(x) for x in fam]
+    fams = list(fams.values())
+    chunk = 40
+    for seed in seeds[:2]:
+        for i in range(0, len(fams), chunk):
+            tasks.append({"seed": seed, "families": fams[i:i + chunk]})
     return tasks
 
 
@@ -177,8 +228,22 @@ def collect(tier, tasks, results, ctx):
     ptrees = set()
     ops_seen = set()
     samples = []
+    nsub = 0
     for t, r in zip(tasks, results):
-        for o in r["out"]:
+        for o in r.get("sub", ()):
+            n += 1
+            nsub += 1
+            if o["pt"]:
+                ptrees.add(o["pt"])
+            if o["problem"]:
+                viol.append({
+                    "key": input_key(["C06", "family", o["family"],
+                                      o["problem"][0]]),
+                    "what": f"observed sets {o['family']} seed={r['seed']}: "
+                            f"{o['problem']}",
+                    "input": {"family": o["family"], "seed": r["seed"]},
+                    "observed": o["problem"]})
+        for o in r.get("out", ()):
             n += 1
             distinct.add(repr(o["tree"]))
             if o["pt"]:
@@ -208,12 +273,17 @@ def collect(tier, tasks, results, ctx):
                 "alternating operators, unordered children, under 2 (3) leaf "
                 "namings that reverse/mix the alphabetical order, one worker "
                 "process per hash seed; the complete outcome family is the "
-                "input; every such tree is non-trivial (>= 2 leaves)",
+                "input; every such tree is non-trivial (>= 2 leaves); "
+                "plus, for soundness on incomplete evidence, every proper "
+                "non-empty sub-family of the outcome family of each tree "
+                "with <= 7 (8) outcomes and every leave-one-out sub-family "
+                "up to 16 (32) outcomes, distinct families only, seeds 0-1",
         "samples": samples, "exhaustive": True,
         "bounds": {"tier": tier, "leaves": "2..5" if tier == "quick"
                    else "2..6", "hash_seeds": [0, 1] if tier == "quick"
                    else list(range(8))},
         "trees_in_exact_subclass_evaluations": exact,
+        "incomplete_families_evaluations": nsub,
         "distinct_inferred_trees": len(ptrees),
     }
     return {"violations": viol, "coverage": cov, "harness_error": he,
@@ -231,10 +301,11 @@ def replay(rec, ctx):
     i = rec["input"]
     env = dict(os.environ, PYTHONHASHSEED=str(i["seed"]))
     code = ("import json,sys;from mc import pool;pool.worker_setup();"
-            "from mc.checks import c06;"
-            "p,pt=c06.check_tree(c06.to_t(json.loads(sys.argv[1])));"
+            "from mc.checks import c06;a=json.loads(sys.argv[1]);"
+            "p,pt=(c06.check_family(a['family']) if 'family' in a else "
+            "c06.check_tree(c06.to_t(a['tree'])));"
             "print(json.dumps(p))")
-    r = subprocess.run([sys.executable, "-c", code, json.dumps(i["tree"])],
+    r = subprocess.run([sys.executable, "-c", code, json.dumps(i)],
                        env=env, capture_output=True, text=True)
     prob = json.loads(r.stdout.strip().splitlines()[-1])
     return bool(prob), repr(prob)[:300]
